@@ -50,6 +50,7 @@ fn run_values(
     arguments: &Vec<String>,
     instructions: &Vec<Instruction>,
     line: usize,
+    output_variable: Option<String>,
     state: &mut HashMap<String, StateValue>,
     variables: &mut HashMap<String, String>,
     commands: &mut Commands,
@@ -60,7 +61,7 @@ fn run_values(
             arguments: arguments[1..].to_vec(),
             state,
             variables,
-            output_variable: None,
+            output_variable,
             instructions,
             commands,
             line,
@@ -71,8 +72,13 @@ fn run_values(
 }
 
 /// Same as eval_with_error for values which were already bound (alias invocations).
+/// The command runs in place of the invoking instruction: it is given that instruction's line,
+/// the instructions it belongs to and its output variable (a user function needs them to return).
 pub(crate) fn eval_values_with_error(
     arguments: &Vec<String>,
+    instructions: &Vec<Instruction>,
+    line: usize,
+    output_variable: Option<String>,
     state: &mut HashMap<String, StateValue>,
     variables: &mut HashMap<String, String>,
     commands: &mut Commands,
@@ -81,7 +87,16 @@ pub(crate) fn eval_values_with_error(
     if arguments.is_empty() {
         CommandResult::Continue(None)
     } else {
-        match run_values(arguments, &vec![], 0, state, variables, commands, env) {
+        match run_values(
+            arguments,
+            instructions,
+            line,
+            output_variable,
+            state,
+            variables,
+            commands,
+            env,
+        ) {
             CommandResult::Crash(error) => CommandResult::Error(error),
             command_result => command_result,
         }
@@ -150,6 +165,7 @@ pub(crate) fn eval_with_instructions(
             arguments,
             instructions,
             call_line,
+            None,
             state,
             variables,
             commands,
